@@ -9,7 +9,7 @@ import ast
 from .. import astutil as A
 from ..fa import FA
 from ..loader import AnalysisError
-from .cache_model import CacheModel, self_attr, branch_filter, both, safe_expand, value_sources
+from .cache_model import CacheModel, self_attr, branch_filter, both, safe_expand, value_sources, every_path_through
 from .effects import reach_effects, storage_backend_classes, QUERY_METHODS
 from .keys import check_keying
 from . import c06
@@ -316,6 +316,114 @@ def _version_scan_loops(fa: FA, vlits):
     return loops
 
 
+def _mentions_table(fa: FA, e, tb, at=None) -> bool:
+    """does the container expression `e` denote (something taken out of) `self.<tb>`: named directly, through a
+    temporary / alias, or through the variable of a loop over the tables"""
+    if any(self_attr(x, tb) for x in ast.walk(e)):
+        return True
+    try:
+        return bool(fa.nodes(at if at is not None else e)) and ("attr:self." + tb) in fa.deps(e)
+    except AnalysisError:
+        return False
+
+
+def _table_removal_nodes(fa: FA, tb):
+    """CFG nodes of `fa` that remove one key from `self.<tb>` (or from the inner table taken out of it): `del X[k]`,
+    `X.pop(k[, d])`.  A removal that sits in a loop over a non-empty literal sequence (`for t in (self.a, self.b): t.pop(k, None)`)
+    and is passed by every iteration makes the loop as a whole a removal (its head stands for it)."""
+    sites = []
+    for st in fa.stmts(ast.Delete):
+        if any(isinstance(t, ast.Subscript) and _mentions_table(fa, t.value, tb, st) for t in st.targets):
+            sites.append(st)
+    for c in fa.calls("pop"):
+        if c.args and fa.unconditional(c) and _mentions_table(fa, A.call_recv(c), tb, c):
+            sites.append(c)
+    out = []
+    for s in sites:
+        ids = fa.nodes(s)
+        out += ids
+        lp = fa.enclosing(s, ast.For)
+        if lp is None or not ids:
+            continue
+        it = safe_expand(fa, lp.iter, lp)
+        if not (isinstance(it, (ast.Tuple, ast.List)) and it.elts and not any(isinstance(x, ast.Starred) for x in it.elts)):
+            continue
+        for h in fa.nodes(lp):
+            # one iteration: from the head into the body, no way back to the head (or out of the loop) that misses the removal
+            r = fa.cfg.reach([h], removed=ids, edge_ok=lambda s_, d_, l_, h=h: not (s_ == h and l_ == "F"), include_start=False)
+            inside = all(i != h and (fa.cfg.node(i).ast is None and i != fa.cfg.exit or (fa.cfg.node(i).ast is not None and fa.inside(fa.cfg.node(i).ast, lp))) for i in r)
+            if inside:
+                out.append(h)
+    return out
+
+
+def _covering_tables(ck, cls, tb, tables):
+    """Tables U of `cls` such that every method which enters a key into self.<tb> (item store, defaultdict look-up,
+    update / setdefault) also enters one into self.<U> on every path through that site: an entry in <tb> then implies
+    an entry in U.  Decided from the field-mutation sites of the effect summaries."""
+    def base(fld):
+        return fld.split(":")[0].replace("[]", "")
+    def inserts(fi, t):
+        out = []
+        for (owner, fld, n) in ck.cg.field_mut_sites.get(fi.qual, []):
+            if base(fld) != t or fld.endswith(":delitem") or fld.endswith(":assign"):
+                continue
+            if isinstance(n, ast.Call) and A.call_attr(n) not in ("update", "setdefault", "__setitem__"):
+                continue
+            out.append(n)
+        return out
+    cover = []
+    for u in tables:
+        if u == tb:
+            continue
+        ok, seen = True, False
+        for name, m in (cls.methods.items() if cls is not None else []):
+            if name == "__init__":
+                continue
+            mine = inserts(m, tb)
+            if not mine:
+                continue
+            seen = True
+            fa = FA(ck, m)
+            if not every_path_through(fa, fa.nodes_all(mine), fa.nodes_all(inserts(m, u))):
+                ok = False
+        if ok and seen:
+            cover.append(u)
+    return cover
+
+
+def _says_absent(text, positive, tb, others) -> bool:
+    """Does the branch literal (text, polarity) say that the call has no entry in `self.<tb>`?  `k in X` false,
+    `X` falsy (an empty / missing inner table), `X is None` true -- where X is taken out of self.<tb> and out of no other table."""
+    import re
+    if not re.search(r"\bself\.%s\b" % re.escape(tb), text) or any(re.search(r"\bself\.%s\b" % re.escape(o), text) for o in others):
+        return False
+    try:
+        e = ast.parse(text, mode="eval").body
+    except SyntaxError:
+        return False
+    def of_table(x):
+        return any(self_attr(n, tb) for n in ast.walk(x))
+    if isinstance(e, ast.Compare) and len(e.ops) == 1:
+        if isinstance(e.ops[0], ast.In):
+            return (not positive) and of_table(e.comparators[0])
+        if isinstance(e.ops[0], ast.Is) and A.is_none(e.comparators[0]):
+            return positive and of_table(e.left)
+        return False
+    if isinstance(e, (ast.Name, ast.Attribute, ast.Subscript)) or (isinstance(e, ast.Call) and A.call_attr(e) == "get"):
+        return (not positive) and of_table(e)
+    return False
+
+
+def _bypass_site(fa: FA, removed, edge_ok):
+    """the last statement of a witness path entry -> exit that avoids `removed` (for the report), or None"""
+    p = fa.cfg.path(fa.cfg.entry, fa.cfg.exit, removed=removed, edge_ok=edge_ok)
+    for i in reversed(p or []):
+        if fa.cfg.node(i).ast is not None:
+            return fa.cfg.node(i).ast
+    return None
+
+
 def check_forget_scope(ck, cm: CacheModel):
     R = "C05.R2"
     ck.rule(R, "forget scope: prefix selections end in the key separator; the metadata source deletes exactly the "
@@ -449,6 +557,24 @@ def check_forget_scope(ck, cm: CacheModel):
                 found.add(tb)
     ck.ob(R, fc.key(None, "tables"), found == set(tables), "forget_call removes from mementos, result and metadata" if found == set(tables) else
           "forget_call does not remove from %s" % sorted(set(tables) - found), fc.where())
+    # ... and from each of them on EVERY path: the three tables are filled independently (custom metadata can be written
+    # for a call that has no memento, a result is stored before its memento), so what one table holds says nothing about
+    # the others.  A way to the normal exit may by-pass the removal from table T only on a branch edge that says the
+    # call's entry is absent from T itself.
+    for tb in tables:
+        if tb not in found:
+            continue
+        rem = _table_removal_nodes(fc, tb)
+        # a table U "covers" T when every method that enters a key into T enters it into U on the same paths: then a call
+        # absent from U is absent from T as well, and such a test excuses the by-pass too
+        cover = _covering_tables(ck, fc.fi.cls, tb, tables)
+        others = [o for o in tables if o != tb and o not in cover]
+        absent = branch_filter(fc, lambda t, p, tb=tb, others=others, cover=cover: any(_says_absent(t, p, x, others) for x in [tb] + cover))
+        okp = bool(rem) and fc.cfg.exit not in fc.cfg.reach([fc.cfg.entry], removed=rem, edge_ok=absent)
+        ck.ob(R, fc.key(None, "every-path:" + tb), okp, "forget_call removes the call's entry from self.%s on every path that finds one" % tb if okp else
+              "forget_call can finish without removing the call's entry from self.%s (the by-pass is not conditioned on that table): "
+              "what is left there outlives the forget and is attached to the call again when it is memoized later; the filesystem "
+              "backend removes everything under the call's file prefix" % tb, fc.where(_bypass_site(fc, rem, absent)))
     fe = FA(ck, MEMBACK + ".forget_everything")
     cl = set()
     for c in fe.calls("clear"):
